@@ -5,8 +5,16 @@
 //! automatically release pins when queries complete.
 
 use parking_lot::RwLock;
-use std::collections::HashMap;
+use std::collections::{HashMap, HashSet};
 use std::sync::Arc;
+
+#[derive(Debug, Default)]
+struct PinState {
+    /// Map from chunk path to pin count
+    pinned: HashMap<String, usize>,
+    /// Chunks the garbage collector is deleting right now
+    deleting: HashSet<String>,
+}
 
 /// Registry tracking chunks pinned by active queries.
 ///
@@ -16,41 +24,88 @@ use std::sync::Arc;
 ///
 /// Uses reference counting so overlapping queries pinning the same
 /// chunk are handled correctly.
+///
+/// Pinning and deleting exclude each other: the garbage collector claims a chunk with
+/// [`ChunkPinRegistry::begin_delete`] (refused while it is pinned) and holds the claim until
+/// the delete request has completed; [`ChunkPinRegistry::try_pin`] refuses chunks that are
+/// claimed. A check of `is_pinned` followed by a delete would leave a window in which a query
+/// working from a cached chunk list pins the chunk just before the request goes out.
 #[derive(Debug, Default, Clone)]
 pub struct ChunkPinRegistry {
-    /// Map from chunk path to pin count
-    pinned: Arc<RwLock<HashMap<String, usize>>>,
+    state: Arc<RwLock<PinState>>,
 }
 
 impl ChunkPinRegistry {
     pub fn new() -> Self {
-        Self {
-            pinned: Arc::new(RwLock::new(HashMap::new())),
-        }
+        Self::default()
     }
 
     /// Pin a set of chunk paths, returning a guard that unpins on drop.
     pub fn pin(&self, paths: Vec<String>) -> PinGuard {
         {
-            let mut pinned = self.pinned.write();
+            let mut state = self.state.write();
             for path in &paths {
-                *pinned.entry(path.clone()).or_insert(0) += 1;
+                *state.pinned.entry(path.clone()).or_insert(0) += 1;
             }
         }
         PinGuard {
-            pinned: Arc::clone(&self.pinned),
+            state: Arc::clone(&self.state),
             paths,
         }
     }
 
+    /// Pin a set of chunk paths unless one of them is being deleted right now.
+    ///
+    /// On failure nothing is pinned and the chunks that are being deleted are returned: the
+    /// caller's chunk list is out of date.
+    pub fn try_pin(&self, paths: Vec<String>) -> std::result::Result<PinGuard, Vec<String>> {
+        {
+            let mut state = self.state.write();
+            let claimed: Vec<String> = paths
+                .iter()
+                .filter(|path| state.deleting.contains(*path))
+                .cloned()
+                .collect();
+            if !claimed.is_empty() {
+                return Err(claimed);
+            }
+            for path in &paths {
+                *state.pinned.entry(path.clone()).or_insert(0) += 1;
+            }
+        }
+        Ok(PinGuard {
+            state: Arc::clone(&self.state),
+            paths,
+        })
+    }
+
+    /// Claim a chunk for deletion. Returns `None` while a query holds it pinned; otherwise
+    /// the chunk cannot be pinned (through `try_pin`) until the claim is dropped.
+    pub fn begin_delete(&self, path: &str) -> Option<DeleteClaim> {
+        let mut state = self.state.write();
+        if state.pinned.get(path).copied().unwrap_or(0) > 0 {
+            return None;
+        }
+        state.deleting.insert(path.to_string());
+        Some(DeleteClaim {
+            state: Arc::clone(&self.state),
+            path: path.to_string(),
+        })
+    }
+
     /// Check if a chunk path is currently pinned by any active query.
     pub fn is_pinned(&self, path: &str) -> bool {
-        self.pinned.read().get(path).copied().unwrap_or(0) > 0
+        self.state.read().pinned.get(path).copied().unwrap_or(0) > 0
     }
 
     /// Get the count of distinct chunks currently pinned.
     pub fn pinned_count(&self) -> usize {
-        self.pinned.read().values().filter(|&&v| v > 0).count()
+        self.state
+            .read()
+            .pinned
+            .values()
+            .filter(|&&v| v > 0)
+            .count()
     }
 }
 
@@ -59,21 +114,33 @@ impl ChunkPinRegistry {
 /// Created by [`ChunkPinRegistry::pin`]. Decrements the reference count
 /// for each pinned chunk when the query completes.
 pub struct PinGuard {
-    pinned: Arc<RwLock<HashMap<String, usize>>>,
+    state: Arc<RwLock<PinState>>,
     paths: Vec<String>,
 }
 
 impl Drop for PinGuard {
     fn drop(&mut self) {
-        let mut pinned = self.pinned.write();
+        let mut state = self.state.write();
         for path in &self.paths {
-            if let Some(count) = pinned.get_mut(path) {
+            if let Some(count) = state.pinned.get_mut(path) {
                 *count = count.saturating_sub(1);
                 if *count == 0 {
-                    pinned.remove(path);
+                    state.pinned.remove(path);
                 }
             }
         }
+    }
+}
+
+/// The garbage collector's claim on a chunk it is deleting; released on drop.
+pub struct DeleteClaim {
+    state: Arc<RwLock<PinState>>,
+    path: String,
+}
+
+impl Drop for DeleteClaim {
+    fn drop(&mut self) {
+        self.state.write().deleting.remove(&self.path);
     }
 }
 
